@@ -78,7 +78,7 @@ class VisitorModel:
                             continue
                         names = [e.id if isinstance(e, ast.Name) else None for e in t.elts]
                         vm.unpacks.append(
-                            Unpack(names, n.lineno, guard_line is not None and guard_line < n.lineno, vm.name)
+                            Unpack(names, n.lineno, (guard_line is not None and guard_line < n.lineno) or _inside_nonempty_branch(n, parents, ch), vm.name)
                         )
                     else:
                         vm.whole_use = True
@@ -122,6 +122,34 @@ class VisitorModel:
                 subs += s2
                 whole = whole or w2
         return ups, subs, whole
+
+
+def _is_nonempty_test(t: ast.AST, ch: str) -> bool:
+    if isinstance(t, ast.Name) and t.id == ch:
+        return True
+    if isinstance(t, ast.BoolOp) and isinstance(t.op, ast.And):
+        return any(_is_nonempty_test(v, ch) for v in t.values)
+    if isinstance(t, ast.Compare) and len(t.ops) == 1 and isinstance(t.left, ast.Call) and isinstance(t.left.func, ast.Name) and t.left.func.id == "len":
+        a = t.left.args
+        c = t.comparators[0]
+        if a and isinstance(a[0], ast.Name) and a[0].id == ch and isinstance(c, ast.Constant) and isinstance(c.value, int):
+            op = t.ops[0]
+            return (isinstance(op, (ast.Gt, ast.NotEq)) and c.value == 0) or (isinstance(op, ast.GtE) and c.value >= 1) or (isinstance(op, ast.Eq) and c.value >= 1)
+    return False
+
+
+def _inside_nonempty_branch(n: ast.AST, parents: Dict[int, ast.AST], ch: str) -> bool:
+    """The statement lies in the branch of an `if` that is only taken when the children list is not empty."""
+    cur = n
+    while id(cur) in parents:
+        par = parents[id(cur)]
+        if isinstance(par, ast.If):
+            in_body = any(cur is b for b in par.body)
+            in_else = any(cur is b for b in par.orelse)
+            if (in_body and _is_nonempty_test(par.test, ch)) or (in_else and _is_empty_test(par.test, ch)):
+                return True
+        cur = par
+    return False
 
 
 def _is_empty_test(t: ast.AST, ch: str) -> bool:
